@@ -187,8 +187,8 @@ def gen_term(r):
     if k < 0.45:
         return ("flt", r.choice([0.5, 3.25, -2.5, 10.0]))
     if k < 0.85:
-        return ("str", r.choice(["abc", "a b", "x|y|z", "", " pad ", "it's", "1,2", "#h", "@v", "a == b", "x -> y", "(q)", "tilde-free", "[br", "q]"]))
-    return ("regex", r.choice(["/a.b/", "/^[0-9]+$/", "/x|y/", "/\\d{2}/"]))
+        return ("str", r.choice(["abc", "a b", "x|y|z", "", " pad ", "it's", "1,2", "#h", "@v", "a == b", "x -> y", "(q)", "a~b", "~hi~ there", "x ~ y", "[br", "q]"]))
+    return ("regex", r.choice(["/a.b/", "/^[0-9]+$/", "/x|y/", "/\\d{2}/", "/^~[a-z]+~$/", "/q~r/"]))
 
 
 def gen_leaf(r):
@@ -215,7 +215,7 @@ def fill(r, shape_item, d, table):
     if k == "int":
         return ("int", r.choice([0, 1, 2, 5, -1, 12]))
     if k == "str":
-        return ("str", r.choice(["abc", "a b", "x|y", "s", "q.r"]))
+        return ("str", r.choice(["abc", "a b", "x|y", "s", "q.r", "a~b", "~t~"]))
     if k == "regex":
         return ("regex", r.choice(["/a.b/", "/^x+$/"]))
     if k == "eq":
